@@ -1,6 +1,7 @@
 import Hifi.Model.Proto
 import Hifi.Model.Epoch
 import Hifi.Model.Views
+import Hifi.Model.ViewsFloat
 import Hifi.Model.LeapFile
 import Hifi.Spec.Epoch
 import Hifi.Drive.Duration
@@ -277,9 +278,14 @@ def handleOps (op : String) (args : List String) (impl : Impl) : Option Ans :=
     -- product, saturating sum): exact for EVERY integer-valued double
     let m : Ep := e.addWholeSeconds k
     let inR := inRange (k * 1000000000) && inRange (sval e.dur + k * 1000000000)
+    -- SoftF64 evaluation of the whole expression (Model/ViewsFloat.lean `epochAddF`, incl. the `trunc == x` test and
+    -- the saturating cast — what the C04 float theorems are about) must give the same duration
+    let cross : Bool := (F64.parseHex? f).map (fun x => Hifi.ViewsF.epochAddF e.dur x) == some m.dur
+    let sp0 := if inR then judgeEpValue impl e.ts (sval e.dur + k * 1000000000) else noPanic impl
     pure { model := "ok " ++ showEp m,
-           spec := if inR then judgeEpValue impl e.ts (sval e.dur + k * 1000000000) else noPanic impl,
-           branch := "eaddf:" ++ (if !inR then "saturating" else if k.natAbs * 1000000000 < 9007199254740992 then "small" else "beyond_2^53_ns") }
+           spec := if sp0 == "ok" && !cross then "FAIL:softf64_equals_model" else sp0,
+           branch := "eaddf:" ++ (if !inR then "saturating" else if k.natAbs * 1000000000 < 9007199254740992 then "small" else "beyond_2^53_ns") ++
+             (if cross then ":softf64=hw" else ":softf64!=hw") }
   | "eroundtrip", [e, d] => do
     let e ← parseEp? e; let d ← parseDur? d
     let s := Dur.add e.dur d
